@@ -206,6 +206,7 @@ type Cond struct {
 	real    *sync.Cond
 	coop    bool
 	waiters []*waiter
+	inWait  []*waiter // threads inside Wait: parked, or signalled and not yet back from re-acquiring L
 }
 
 type waiter struct {
@@ -222,6 +223,16 @@ func (c *Cond) realCond() *sync.Cond {
 		c.real = sync.NewCond(c.L)
 	}
 	return c.real
+}
+
+// InWait returns the names of the threads that are inside Wait (controlled executions only): those still waiting for
+// a signal and those already signalled that have not yet returned from Wait.
+func (c *Cond) InWait() []string {
+	var out []string
+	for _, w := range c.inWait {
+		out = append(out, w.name)
+	}
+	return out
 }
 
 // Waiters returns the names of the threads currently waiting (controlled executions only).
@@ -244,6 +255,15 @@ func (c *Cond) Wait() {
 	c.coop = true
 	w := &waiter{name: vsched.CurrentName()}
 	c.waiters = append(c.waiters, w)
+	c.inWait = append(c.inWait, w)
+	defer func() {
+		for i, x := range c.inWait {
+			if x == w {
+				c.inWait = append(c.inWait[:i:i], c.inWait[i+1:]...)
+				break
+			}
+		}
+	}()
 	switch l := c.L.(type) {
 	case *Mutex:
 		l.unlockNoYield()
